@@ -9,6 +9,7 @@ import (
 	"fmt"
 	"sort"
 	"strings"
+	"sync"
 )
 
 type Term struct {
@@ -64,7 +65,11 @@ var selectorIndex = map[string]struct {
 	"rat.nil": {"mk-rat", 0}, "rat.num": {"mk-rat", 1}, "rat.den": {"mk-rat", 2},
 }
 
+var selMu sync.RWMutex
+
 func RegisterSelector(sel, ctor string, idx int) {
+	selMu.Lock()
+	defer selMu.Unlock()
 	selectorIndex[sel] = struct {
 		ctor string
 		idx  int
@@ -120,7 +125,10 @@ func App(sort, op string, args ...Term) Term {
 		return Term{op, sort}
 	}
 	if len(args) == 1 {
-		if si, ok := selectorIndex[op]; ok && strings.HasPrefix(args[0].S, "("+si.ctor+" ") {
+		selMu.RLock()
+		si, ok := selectorIndex[op]
+		selMu.RUnlock()
+		if ok && strings.HasPrefix(args[0].S, "("+si.ctor+" ") {
 			_, as := splitTop(args[0].S)
 			if si.idx < len(as) {
 				return Term{as[si.idx], sort}
